@@ -26,8 +26,12 @@ LEAF_KINDS = ['P', 'F', 'E']
 LEAF_KINDS_1 = ['P', 'F', 'E', 'A', 'I']   # depth-1 constructs also range over failures of other exception families
 # the last two repeat the nest inside one cell, with another registered sub-expression in between / around
 CONTEXTS = ['{0}', '1+{0}', '{0}+1', '2*{0}', '-{0}', '{0}&"x"', '{0}=3', 'SUM({0},1)', 'IF({0}>0,"P","N")', 'ROUND({0},0)',
-            '{0}&"/"&IFS(1>2,"k",TRUE,"m")&"/"&{0}', 'IF(SUM(1,2)>2,{0},0)+IFS(TRUE,0)+{0}']
-CNAMES = ['bare', '1+n', 'n+1', '2*n', '-n', 'n&x', 'n=3', 'SUM(n,1)', 'IF(n>0)', 'ROUND(n,0)', 'n&IFS&n', 'IF(SUM,n)+IFS+n']
+            '{0}&"/"&IFS(1>2,"k",TRUE,"m")&"/"&{0}', 'IF(SUM(1,2)>2,{0},0)+IFS(TRUE,0)+{0}',
+            # IFERROR around MIN that holds the nest: an error value among MIN's arguments is MIN's value (as in Excel) and
+            # reaches IFERROR.  (MAX and SUM of this library skip error values like texts; C11 does not fix that, not judged.)
+            'IFERROR(MIN({0},1000),"fb")']
+CNAMES = ['bare', '1+n', 'n+1', '2*n', '-n', 'n&x', 'n=3', 'SUM(n,1)', 'IF(n>0)', 'ROUND(n,0)', 'n&IFS&n', 'IF(SUM,n)+IFS+n',
+          'IFERROR(MIN(n))']
 COND_COLS = ['C', 'D', 'E', 'F', 'G', 'H', 'I', 'J', 'K', 'L', 'M', 'N']
 TRUTHS = [True, False, 1, 0, None, -1.5]
 
@@ -93,7 +97,14 @@ def render(nest):
 
 
 # the two failing leaves that are function calls: in the reference they simply are errors
-FAILING = {'MONTH': lambda env, args: R.Err('VALUE'), 'VLOOKUP': lambda env, args: R.Err('REF')}
+def _minmax(pick):
+    def f(env, args):
+        n = R._numeric_args(env, args)
+        return n if isinstance(n, R.Err) else (pick(n) if n else 0)
+    return f
+
+
+FAILING = {'MONTH': lambda env, args: R.Err('VALUE'), 'VLOOKUP': lambda env, args: R.Err('REF'), 'MIN': _minmax(min), 'MAX': _minmax(max)}
 
 
 def assignments(k):
@@ -235,7 +246,8 @@ def run_nests(cases, stats):
             env = R.Env(cells, funcs=FAILING)
             try:
                 bare = R.evaluate(ast_bare, env)
-                want = bare if c['ctx'] == 0 else (None if isinstance(bare, R.Err) else R.evaluate(ast_ctx, R.Env(cells, funcs=FAILING)))
+                want = bare if c['ctx'] == 0 else (None if isinstance(bare, R.Err) and not CONTEXTS[c['ctx']].startswith('IFERROR(')
+                                                   else R.evaluate(ast_ctx, R.Env(cells, funcs=FAILING)))
             except R.Unspecified:
                 stats['x:not_judged'] += 1
                 continue
